@@ -124,6 +124,14 @@ auto __redu_len(const T &value) -> decltype(value.length()) {
 }
 """
 
+STR_INDEX_HELPER_SNIPPET = """inline char __redu_str_get(const String &text, int index) {
+  if (index < 0) {
+    index += static_cast<int>(text.length());
+  }
+  return text[static_cast<unsigned int>(index)];
+}
+"""
+
 MATH_HELPER_SNIPPET = """template <typename A>
 A __redu_abs(A value) {
   return value < 0 ? -value : value;
@@ -3250,6 +3258,8 @@ def emit(ast: Program) -> str:
         parts.append(LCD_HELPER_SNIPPET + "\n")
     if "math" in helpers:
         parts.append(MATH_HELPER_SNIPPET + "\n")
+    if "str_index" in helpers:
+        parts.append(STR_INDEX_HELPER_SNIPPET + "\n")
     if "list" in helpers:
         parts.append(LIST_HELPER_SNIPPET + "\n")
     if "len" in helpers:
